@@ -119,21 +119,6 @@ def stepGsd (w : List String) : Option String :=
 
 /-! ### Oracle C19 -/
 
-def indexedTop : List Str :=
-  ["ext_user_prm_data_ref", "ext_user_prm_data_const", "unit_diag_bit", "unit_diag_bit_help",
-   "unit_diag_not_bit", "unit_diag_not_bit_help"].map String.toList
-def indexedModule : List Str := ["ext_user_prm_data_ref", "ext_user_prm_data_const"].map String.toList
-
-/-- Class predicate of the open finding `K_C19_unindexed`: the file contains a setting whose key needs
-an `(index)` but has none. -/
-def hasUnindexed (ast : Ast) : Bool :=
-  ast.any fun
-    | .setting s => s.index.isNone && indexedTop.contains (lower s.key)
-    | .module m => m.items.any fun
-      | .setting s => s.index.isNone && indexedModule.contains (lower s.key)
-      | _ => false
-    | _ => false
-
 def textHasUnindexed (text : Str) : Bool :=
   match Peg.parseGsd text with
   | some (some tree) =>
